@@ -430,6 +430,8 @@ def make_numpy(extra=None):
             return x.np_unique(I)
         t = as_tensor(I, x)
         if any(isinstance(v, Sym) for v in t.data):
+            if t.ndim == 1:
+                return DistinctValues(list(t.data))
             raise Unsupported("np.unique of symbolic values in a fixed array")
         vals = sorted(set(t.data))
         return Tensor((len(vals),), vals, t.dtype)
@@ -523,6 +525,21 @@ def make_numpy(extra=None):
         A.update(extra)
     np = ExtModule("numpy", A)
     return np
+
+
+class DistinctValues(Ext):
+    """np.unique of a short list of symbolic integers: only its length (number of distinct values) is used"""
+    type_name = "ndarray(unique of symbolic values)"
+
+    def __init__(self, vals):
+        self.vals = vals
+
+    def py_len(self, I):
+        tot = z3.IntVal(0)
+        for i, v in enumerate(self.vals):
+            earlier = [to_z3(v, "int") == to_z3(w, "int") for w in self.vals[:i]]
+            tot = tot + z3.If(z3.Or(earlier) if earlier else z3.BoolVal(False), 0, 1)
+        return mk(tot)
 
 
 class _Nan(Ext):
